@@ -20,25 +20,26 @@ import (
 const ModulePath = "github.com/csgura/fp"
 
 type Engine struct {
-	Prog        *ssa.Program
-	Pkgs        []*packages.Package
-	Sizes       types.Sizes
-	Tier        string
-	RepoDir     string
-	SolverBin   []string
-	TimeoutMs   int
-	MaxPaths    int
-	MaxCex      int
-	Workers     int
-	runtimeErrT types.Type
-	LoadTime    time.Duration
-	Defaults    Limits
-	Verbose     bool
-	WantWitness func(h *Harness) bool
+	Prog          *ssa.Program
+	Pkgs          []*packages.Package
+	Sizes         types.Sizes
+	Tier          string
+	RepoDir       string
+	SolverBin     []string
+	TimeoutMs     int
+	MaxPaths      int
+	MaxCex        int
+	Workers       int
+	runtimeErrT   types.Type
+	LoadTime      time.Duration
+	Defaults      Limits
+	Verbose       bool
+	WantWitness   func(h *Harness) bool
 	MirrorBin     []string
 	Disagreements int
 	MirrorLost    int
 	MirrorChecks  int
+	MirrorSkipped int
 }
 
 func boolInt(b bool) int {
@@ -360,6 +361,7 @@ func (e *Engine) RunAll(hs []*Harness, progress func(*HarnessResult)) []*Harness
 				mu.Lock()
 				e.Disagreements += z.Disagree
 				e.MirrorChecks += z.MirrorChecks
+				e.MirrorSkipped += z.MirrorSkipped
 				e.MirrorLost += boolInt(len(e.MirrorBin) > 0 && z.Mirror == nil)
 				mu.Unlock()
 				z.Close()
